@@ -41,6 +41,8 @@ def configs(tier):
     add(group='e2e', mode='many', d=2, n=2, q=1, labels=2, _cost=500)
     add(group='e2e', mode='original', d=2, n=2, q=1, labels=2, _cost=500)
     add(group='e2e', mode='many', d=2, n=2, q=1, strat='product', _cost=500)
+    add(group='e2e', mode='many', d=2, n=2, q=1, user_storage=True, _cost=500)
+    add(group='e2e', mode='original', d=2, n=2, q=1, user_storage=True, _cost=500)
     nmax, qmax = (3, 2) if tier == 'quick' else (4, 3)
     for d in (1, 2, 3):
         for n in range(1, nmax + 1):
@@ -174,6 +176,10 @@ def _e2e(env, cfg, ctx):
     cls = IntervalSage if cfg['mode'] == 'interval' else BatchSage
     if cls is IntervalSage:
         kw.update(interval_length=1, storage_length=n)
+    if cfg.get('user_storage'):
+        # the user hands over a storage built with its default arguments (documented: targets are kept)
+        from ixai.storage import BatchStorage, IntervalStorage
+        kw['storage'] = IntervalStorage(size=n) if cls is IntervalSage else BatchStorage()
     ex = guarded(env, 'ctor', cls, model, names, loss, **kw)
     if cfg.get('strat') == 'product':
         ex._imputer.sampling_strategy = 'product'
